@@ -1918,22 +1918,36 @@ class Interp:
                     raise Fail(f'with over an object without __enter__/__exit__ line {st.lineno}')
                 exits.append((v, FuncRef(m2, c2.module, c2)))
                 v = self.invoke(FuncRef(m, c.module, c), [v], {})
+            elif getattr(v, 'abs_exit', None) is not None:
+                exits.append((v, None))          # a modelled context manager
+                if getattr(v, 'abs_enter', None) is not None:
+                    v = v.abs_enter(self)
             if item.optional_vars is not None:
                 self.assign(item.optional_vars, v, fr)
         try:
             self.block(st.body, fr)
         except RaiseEx as e:
             for o, ex in reversed(exits):
+                if ex is None:
+                    if o.abs_exit(self, e):
+                        return
+                    continue
                 if self.truth(self.invoke(ex, [o, Sym('exc_type', not_none=True), ExcV(e.kind), Sym('traceback', not_none=True)], {})):
                     return
             raise
         except (ReturnEx, BreakEx, ContinueEx):
             for o, ex in reversed(exits):
-                self.invoke(ex, [o, K(None), K(None), K(None)], {})
+                if ex is None:
+                    o.abs_exit(self, None)
+                else:
+                    self.invoke(ex, [o, K(None), K(None), K(None)], {})
             raise
         else:
             for o, ex in reversed(exits):
-                self.invoke(ex, [o, K(None), K(None), K(None)], {})
+                if ex is None:
+                    o.abs_exit(self, None)
+                else:
+                    self.invoke(ex, [o, K(None), K(None), K(None)], {})
 
     def st_Continue(self, st, fr):
         raise ContinueEx()
